@@ -715,6 +715,9 @@ class IntervalTier(textgrid_tier.TextgridTier):
         Returns:
             The modified version of the current tier
         """
+        if len(self.entries) == 0 and len(targetTier.entries) == 0:
+            return self.new()  # Nothing to morph
+
         newEntryList = []
         lastSourceEnd = None
         lastNewEnd = None
